@@ -411,7 +411,7 @@ func (x *Exec) callAbstract(st *State, fr *Frame, at ssa.Instruction, name strin
 		}
 	} else if cc != nil && cc.IsInvoke() {
 		writes = !looksReadOnly(cc.Method.Name())
-		pureHeap = looksReadOnly(cc.Method.Name())
+		pureHeap = looksReadOnly(cc.Method.Name()) && !writesThroughArgs(cc.Method.Name())
 	}
 	touchedWorlds := map[int]bool{}
 	for _, a := range args {
@@ -457,6 +457,12 @@ func (x *Exec) callAbstract(st *State, fr *Frame, at ssa.Instruction, name strin
 			if _, ok := a.Typ.Underlying().(*types.Pointer); ok && a.T.Sort == SRef {
 				x.havocObject(st, a)
 			}
+			// a pointer handed over inside an interface value (UnpackAny(any, &m), Unmarshal(bz, ptr))
+			if a.T.Sort == SIface && a.Dyn != nil && a.Dyn.Typ != nil && a.Dyn.T.Sort == SRef {
+				if _, ok := a.Dyn.Typ.Underlying().(*types.Pointer); ok {
+					x.havocObject(st, *a.Dyn)
+				}
+			}
 		}
 	}
 	key := "abstract:" + name
@@ -490,11 +496,18 @@ func (x *Exec) callAbstract(st *State, fr *Frame, at ssa.Instruction, name strin
 
 func pureArgsPkg(fn *ssa.Function) bool {
 	// library functions that never mutate through their pointer arguments, except decoders
-	n := fn.Name()
-	if strings.Contains(n, "Unmarshal") || strings.Contains(n, "Unpack") || strings.Contains(n, "Decode") || strings.Contains(n, "Scan") || strings.Contains(n, "Read") || strings.Contains(n, "Sort") || strings.Contains(n, "Set") || strings.Contains(n, "Fill") {
-		return false
+	return !writesThroughArgs(fn.Name())
+}
+
+// writesThroughArgs: decoders and similar functions whose purpose is to fill the object a pointer
+// argument refers to, even though they do not write any world.
+func writesThroughArgs(n string) bool {
+	for _, p := range []string{"Unmarshal", "Unpack", "Decode", "Scan", "Read", "Sort", "Set", "Fill"} {
+		if strings.Contains(n, p) {
+			return true
+		}
 	}
-	return true
+	return false
 }
 
 func (x *Exec) mayReachWorld(fn *ssa.Function, cc *ssa.CallCommon) bool {
@@ -602,6 +615,8 @@ func (x *Exec) checkGuards(st *State, fr *Frame, at ssa.Instruction, callee stri
 			t = TFalse
 		}
 		st.callCounts["guard:"+labelOr(cl, pat)]++
+		// cover: the guarded call site must be reachable (a *discharged* V obligation is an alarm)
+		x.emit(st, fr, "V", "reach.guard."+labelOr(cl, mangle(pat)), TFalse, at)
 		x.emit(st, fr, "F6", "guard."+labelOr(cl, mangle(pat)), t, at)
 		x.guardHits[labelOr(cl, mangle(pat))]++
 	}
@@ -710,6 +725,11 @@ func (x *Exec) applyContract(st *State, fr *Frame, at ssa.Instruction, name stri
 		}
 	}
 	for i, cl := range c.Of("ensures") {
+		if exprUsesPathBuiltins(cl.E) {
+			// ncalls / lastret / local speak about the callee's own execution path: such a clause is
+			// an obligation of the callee, not a fact a caller can use
+			continue
+		}
 		t, err := x.evalBool(st, nil, cl.E, sc)
 		if err != nil {
 			x.Abstracted[fmt.Sprintf("callee clause not usable at call site: ensures %d of %s (%v)", i, name, err)]++
@@ -1350,4 +1370,38 @@ func (x *Exec) checkContinuesAfter(st *State, fr *Frame, at ssa.Instruction) {
 			x.emit(st, fr, "F6", "loop"+parts[1]+".continues_after."+mangle(parts[2]), TFalse, at)
 		}
 	}
+}
+
+func exprUsesPathBuiltins(e Expr) bool {
+	switch e := e.(type) {
+	case ECall:
+		if e.Fun == "ncalls" || e.Fun == "lastret" || e.Fun == "local" {
+			return true
+		}
+		if e.Recv != nil && exprUsesPathBuiltins(e.Recv) {
+			return true
+		}
+		for _, a := range e.Args {
+			if exprUsesPathBuiltins(a) {
+				return true
+			}
+		}
+	case EUnary:
+		return exprUsesPathBuiltins(e.X)
+	case EBinary:
+		return exprUsesPathBuiltins(e.L) || exprUsesPathBuiltins(e.R)
+	case ESel:
+		return exprUsesPathBuiltins(e.X)
+	case EIndex:
+		return exprUsesPathBuiltins(e.X) || exprUsesPathBuiltins(e.I)
+	case EOld:
+		return exprUsesPathBuiltins(e.X)
+	case EQuant:
+		return exprUsesPathBuiltins(e.Body)
+	case ELet:
+		return exprUsesPathBuiltins(e.Val) || exprUsesPathBuiltins(e.Body)
+	case EIte:
+		return exprUsesPathBuiltins(e.C) || exprUsesPathBuiltins(e.A) || exprUsesPathBuiltins(e.B)
+	}
+	return false
 }
